@@ -516,3 +516,65 @@ Proof.
     (destruct (15 <? nbrep) eqn:C3; try lia); (destruct (7 <? cntl) eqn:C4; try lia); cbn [bind]; discriminate.
 Qed.
 End MacRoundtrips.
+
+(* ---- summaries (the statements of props/C15.v) ------------------------------ *)
+
+Theorem encoders_link :
+  (forall f dr, 0 <= f < 4294967296 -> 0 <= dr < 256 ->
+     rxparamsetupreq_marshal f dr = zs (MC.enc (MC.PRXParamSetupReq (Z.to_N f) false (Z.to_N dr) 0))) /\
+  (forall ch f mx mn, 0 <= ch < 256 -> 0 <= f < 4294967296 -> 0 <= mx < 256 -> 0 <= mn < 256 ->
+     newchannelreq_marshal ch f mx mn
+     = zs (MC.enc (MC.PNewChannelReq (Z.to_N ch) (Z.to_N f) (Z.to_N mx) (Z.to_N mn)))) /\
+  (forall ch f, 0 <= ch < 256 -> 0 <= f < 4294967296 ->
+     dlchannelreq_marshal ch f = zs (MC.enc (MC.PDLChannelReq (Z.to_N ch) (Z.to_N f)))) /\
+  (forall f, 0 <= f < 4294967296 -> beaconfreqreq_marshal f = zs (MC.enc (MC.PBeaconFreqReq (Z.to_N f)))) /\
+  (forall f dr, 0 <= f < 4294967296 -> 0 <= dr < 256 ->
+     pingslotchannelreq_marshal f dr = zs (MC.enc (MC.PPingSlotChannelReq (Z.to_N f) (Z.to_N dr)))) /\
+  (forall p, 0 <= p_dr p < 256 -> 0 <= p_txp p < 256 -> 0 <= p_cntl p < 256 -> 0 <= p_nbrep p < 256 ->
+     length (p_mask p) = 16%nat ->
+     linkadrreq_marshal p
+     = zs (MC.enc (MC.PLinkADRReq (Z.to_N (p_dr p)) (Z.to_N (p_txp p)) (p_mask p) (Z.to_N (p_cntl p)) (Z.to_N (p_nbrep p))))).
+Proof.
+  repeat split.
+  - exact rxparamsetupreq_enc_link.
+  - exact newchannelreq_enc_link.
+  - exact dlchannelreq_enc_link.
+  - exact beaconfreqreq_enc_link.
+  - exact pingslotchannelreq_enc_link.
+  - exact linkadrreq_enc_link.
+Qed.
+
+Theorem cflist_link :
+  (forall c, cflist_domain c -> cflist_marshal c = zs (FM.cflist_marshal (cflist_to_model c))) /\
+  (forall bs, bytesN bs -> cflist_unmarshal (map Z.of_N bs) = omap cflist_of_model (FM.cflist_unmarshal bs)).
+Proof. split; [exact cflist_enc_link | exact cflist_dec_link]. Qed.
+
+Theorem mac_roundtrips :
+  (forall f dr : N, (f mod 100 = 0)%N -> (f / 100 < 16777216)%N -> (dr <= 15)%N ->
+     exists bs, MC.enc (MC.PRXParamSetupReq f false dr 0) = Ok bs /\
+       MC.dec MC.KRXParamSetupReq bs = Ok (MC.PRXParamSetupReq f false dr 0)) /\
+  (forall ch f mx mn : N,
+     ((f mod 100 = 0 /\ f < 1200000000) \/ (2400000000 <= f /\ f mod 200 = 0 /\ f / 200 < 16777216))%N ->
+     (ch < 256)%N -> (mx <= 15)%N -> (mn <= 15)%N ->
+     exists bs, MC.enc (MC.PNewChannelReq ch f mx mn) = Ok bs /\
+       MC.dec MC.KNewChannelReq bs = Ok (MC.PNewChannelReq ch f mx mn)) /\
+  (forall ch f : N, (f mod 100 = 0)%N -> (f / 100 < 16777216)%N -> (ch < 256)%N ->
+     exists bs, MC.enc (MC.PDLChannelReq ch f) = Ok bs /\ MC.dec MC.KDLChannelReq bs = Ok (MC.PDLChannelReq ch f)) /\
+  (forall f : N, (f mod 100 = 0)%N -> (f / 100 < 16777216)%N ->
+     exists bs, MC.enc (MC.PBeaconFreqReq f) = Ok bs /\ MC.dec MC.KBeaconFreqReq bs = Ok (MC.PBeaconFreqReq f)) /\
+  (forall f dr : N, (f mod 100 = 0)%N -> (f / 100 < 16777216)%N -> (dr <= 15)%N ->
+     exists bs, MC.enc (MC.PPingSlotChannelReq f dr) = Ok bs /\
+       MC.dec MC.KPingSlotChannelReq bs = Ok (MC.PPingSlotChannelReq f dr)) /\
+  (forall (dr txp : N) (cm : list bool) (cntl nbrep : N),
+     (dr <= 15)%N -> (txp <= 15)%N -> (cntl <= 7)%N -> (nbrep <= 15)%N -> length cm = 16%nat ->
+     exists bs, MC.enc (MC.PLinkADRReq dr txp cm cntl nbrep) = Ok bs /\
+       MC.dec MC.KLinkADRReq bs = Ok (MC.PLinkADRReq dr txp cm cntl nbrep)).
+Proof.
+  repeat split.
+  - exact rxparamsetupreq_mac.
+  - exact newchannelreq_mac.
+  - exact dlchannelreq_mac.
+  - exact beaconfreqreq_mac.
+  - exact pingslotchannelreq_mac.
+  - exact linkadrreq_mac.
+Qed.
